@@ -17,7 +17,56 @@
 #define WAV_EXT_LEN(wh) ((wh)->fmt_chunk_size >= 18 ? 2ll + ((wh)->cb_size == 22 ? 22ll : (long long)(wh)->fmt_chunk_size - 18) : 0ll)
 #define WAV_WALK_LEN(wh) (12ll + 8 + 16 + WAV_EXT_LEN(wh) + (WAV_HAS_FACT(wh) ? 12 : 0) + 8)
 
+/* sample width in bytes of a format, from the statement (16-bit PCM: 2, 32-bit PCM and float: 4) */
+#define WAV_BYTES(f) ((f) == RF_WAVHEADER_S16LE ? 2u : 4u)
+#define WAV_FMT_OK(f) ((f) == RF_WAVHEADER_S16LE || (f) == RF_WAVHEADER_S32LE || (f) == RF_WAVHEADER_FLOAT)
+/* "within 32-bit size limits": every size field of the header can hold its value; the API takes the rate and
+ * the channel count as int and computes the byte rate in int, so its 32-bit limit is INT_MAX */
+#define WAV_ARGS_FIT(rate, ch, f)                                                                \
+	((rate) >= 1 && (ch) >= 1 && (unsigned long long)(ch) * WAV_BYTES(f) <= 0xffffull &&       \
+	 (unsigned long long)(rate) * (unsigned long long)(ch) * WAV_BYTES(f) <= 0x7fffffffull)
+#define WAV_ZERO4(a) ((a)[0] == 0 && (a)[1] == 0 && (a)[2] == 0 && (a)[3] == 0)
+#define WAV_ZERO16(a) (WAV_ZERO4(a) && WAV_ZERO4((a) + 4) && WAV_ZERO4((a) + 8) && WAV_ZERO4((a) + 12))
+/*
+ * Shape of a header made by rf_wavheader_init (+ set_num_frames): plain PCM (16-byte fmt chunk, no
+ * fact chunk) or IEEE float (18-byte fmt chunk with cb_size 0, 12-byte fact chunk); every field that
+ * is not carried by the encoding is zero, so that decode(encode(h)) can be field-wise identical.
+ */
+#define WAV_INIT_SHAPE(wh)                                                                       \
+	(WAV_IS((wh)->chunk_id, 'R', 'I', 'F', 'F') && WAV_IS((wh)->format, 'W', 'A', 'V', 'E') &&  \
+	 WAV_IS((wh)->fmt_chunk_id, 'f', 'm', 't', ' ') && WAV_IS((wh)->data_chunk_id, 'd', 'a', 't', 'a') && \
+	 (wh)->cb_size == 0 && (wh)->valid_bits_per_sample == 0 && (wh)->channel_mask == 0 && WAV_ZERO16((wh)->sub_format) && \
+	 (((wh)->audio_format == 1 && (wh)->fmt_chunk_size == 16 && WAV_ZERO4((wh)->fact_chunk_id) &&  \
+	   (wh)->fact_chunk_size == 0 && (wh)->sample_length == 0) ||                               \
+	  ((wh)->audio_format == 3 && (wh)->fmt_chunk_size == 18 && WAV_HAS_FACT(wh) && (wh)->fact_chunk_size == 12)))
+/* RIFF chunk size == bytes that follow the field in a file carrying exactly the declared data */
+#define WAV_SIZES_CONSISTENT(wh) ((unsigned long long)(wh)->chunk_size == (unsigned long long)(WAV_WALK_LEN(wh) - 8) + (wh)->data_chunk_size)
+
 #ifndef VERIF_NATIVE
+void rf_wavheader_init(rf_wavheader_t *wh, int sfreq, int num_channels, rf_wavheader_format_t format)
+REQUIRES(WAV_FMT_OK(format) && WAV_ARGS_FIT(sfreq, num_channels, format))
+ENSURES(WAV_INIT_SHAPE(wh))
+ENSURES(wh->audio_format == (format == RF_WAVHEADER_FLOAT ? 3 : 1))
+ENSURES(wh->num_channels == num_channels && wh->sample_rate == (uint32_t)sfreq)
+ENSURES(wh->block_align == num_channels * WAV_BYTES(format) && wh->bits_per_sample == 8 * WAV_BYTES(format))
+ENSURES(wh->byte_rate == (uint32_t)sfreq * (uint32_t)wh->block_align)
+ENSURES(wh->data_chunk_size == 0 && WAV_SIZES_CONSISTENT(wh))
+ASSIGNS(*wh);
+
+void rf_wavheader_set_num_frames(rf_wavheader_t *wh, unsigned int num_frames)
+REQUIRES(WAV_INIT_SHAPE(wh) && WAV_SIZES_CONSISTENT(wh))
+REQUIRES((unsigned long long)num_frames * wh->block_align + (unsigned long long)(WAV_WALK_LEN(wh) - 8) <= 0xffffffffull)
+REQUIRES(wh->fmt_chunk_size == 16 || (unsigned long long)num_frames * wh->num_channels <= 0xffffffffull)
+ENSURES(wh->data_chunk_size == num_frames * (uint32_t)wh->block_align)
+ENSURES((unsigned long long)wh->data_chunk_size == (unsigned long long)num_frames * wh->block_align)
+ENSURES(WAV_SIZES_CONSISTENT(wh))
+ASSIGNS(wh->chunk_size, wh->data_chunk_size, wh->sample_length);
+
+int rf_wavheader_encode(rf_wavheader_t *wh, uint8_t *p, unsigned int sz)
+REQUIRES(sz < 0x80000000u && wh->fmt_chunk_size <= 0x7fffff00u)
+ENSURES((long long)RESULT == WAV_WALK_LEN(wh))
+ASSIGNS(__CPROVER_object_upto(p, sz));
+
 int rf_wavheader_decode(const uint8_t *p, unsigned int sz, rf_wavheader_t *wh)
 REQUIRES(sz < 0x80000000u)
 ENSURES(RESULT < 0 || (long long)RESULT > (long long)sz || RESULT >= RF_WAVHEADER_MIN_SIZE)
